@@ -489,4 +489,133 @@ theorem linker_history_irrelevant (sel : List Id) (u : σ) (st st' : List Status
     (lSolveT L o n t sel ⟨u, st, it⟩).2 = (lSolveT L o n t sel ⟨u, st', it'⟩).2 := by
   simp only [lSolveT_eq_outcome, applyLOutcome_user, applyLOutcome_result, and_self]
 
+/-! ### Non-vacuity (review): every hypothesis-carrying theorem instantiated at a concrete non-trivial instance -/
+
+section Review
+
+private abbrev exU : List Nat × List Int := ([0, 0], [-1, -1])
+private def exW : World (List Nat × List Int) := ⟨exU, List.replicate 3 .unsolved, [-1, -1, -1]⟩
+private theorem swapLt {P : Nat → Prop} (n : Nat) (h : ∀ i, i < n → 0 < i → P i) : ∀ i, 0 < i → i < n → P i :=
+  fun i a b => h i b a
+private theorem swapLe {P : Nat → Prop} (n : Nat) (h : ∀ i, i ≤ n → 0 < i → P i) : ∀ i, 0 < i → i ≤ n → P i :=
+  fun i a b => h i b a
+
+/-- `evalSubs_logged_events`, `linker_iteration_shape`: iteration 1 over the selection `[0, 1]`. -/
+example : (evalSubs (llogged exL) {} 1 1 [0, 1] (exU, [])).1.2 = [] ++ [0, 1].map (fun i => LEvent.sub i 1) :=
+  evalSubs_logged_events exL {} 1 1 [0, 1] exU [] (by decide)
+example : (linkerPass (llogged exL) {} [0, 1] 1 1 (exU, [])).1.2 =
+    [.evalBefore 1, .sub 0 1, .sub 1 1, .evalAfter 1] :=
+  linker_iteration_shape exL {} 1 [0, 1] 1 exU [] (by decide) (by decide)
+
+/-- `unselected_not_evaluated`: with only submodel 1 selected no pass of submodel 0 is logged. -/
+example : LEvent.sub 0 1 ∉ (linkerPass (llogged exL) {} [1] 1 1 (exU, [])).1.2 :=
+  unselected_not_evaluated exL {} 1 [1] 1 exU [] 0 1 (by decide) (by decide) (by decide) (by decide)
+
+/-- `unknown_id_keyerror` (with a non-zero offset too), `linker_offset_seeds`, `linker_offset_oob`. -/
+example : (lSolveT exL { offset := -1 } 3 1 [0, 7] exW).2 = .keyError :=
+  unknown_id_keyerror exL _ 3 1 [0, 7] exW (by decide)
+example : lSolveT exL { offset := -1 } 3 1 [0, 1] exW =
+    lCore exL { offset := -1 } 3 1 [0, 1] exW (exL.copyOffset exW.user [0, 1] 1 (-1)) :=
+  linker_offset_seeds exL _ 3 1 [0, 1] exW (by decide) (by decide) (by decide) (by decide)
+example : lSolveT exL { offset := -1 } 3 0 [0, 1] exW = (exW, .indexError) ∧
+    lSolveT exL { offset := 1 } 3 (-1) [0, 1] exW = (exW, .indexError) :=
+  ⟨linker_offset_oob exL _ 3 0 [0, 1] exW (by decide) (by decide) (by decide),
+   linker_offset_oob exL _ 3 (-1) [0, 1] exW (by decide) (by decide) (by decide)⟩
+
+/-- `lSolveT_eq_finish`, `linker_converges` (`k0 = 4`), `linker_fails` (`max_iter = 3`) on the two-submodel linker. -/
+example : lSolveT exL { maxIter := 10 } 3 1 [0, 1] exW =
+    lfinish exL { maxIter := 10 } 3 1 [0, 1] exW
+      (loop (asInterp exL [0, 1]) { maxIter := 10 } 1 ({ maxIter := 10 } : Opts).maxIter.toNat 1
+        (exL.solveBefore { maxIter := 10 } (resetAll exL 1 [0, 1] exU).1 [0, 1] 1).1 (exL.check exU [0, 1] 1)) :=
+  lSolveT_eq_finish exL { maxIter := 10 } 3 1 [0, 1] exW exU (by decide) (by decide) (by decide)
+example : lSolveT exL { maxIter := 10 } 3 1 [0, 1] exW =
+    (stamp (withUser exW (stampSubs exL 1 .solved [0, 1] ([2, 3], [4, 4]))) 3 1 .solved ((4 : Nat) : Int), .ret true) :=
+  linker_converges exL { maxIter := 10 } 3 1 [0, 1] exW exU (by decide) (by decide) (by decide) 4 (by decide) (by decide)
+    (by decide) (swapLt 4 (by unfold Good; decide)) (by unfold Good; decide) (by decide)
+example : lSolveT exL { maxIter := 3 } 3 1 [0, 1] exW =
+    (stamp (withUser exW (stampSubs exL 1 .failed [0, 1] ([2, 3], [3, 3]))) 3 1 .failed ((3 : Nat) : Int), .nonConvergence) :=
+  linker_fails exL { maxIter := 3 } 3 1 [0, 1] exW exU (by decide) (by decide) (by decide) (by decide)
+    (swapLe 3 (by unfold Good; decide))
+
+/-- `lags_leads_max` on three submodels. -/
+example : linkerExtent [1, 3, 2] ∈ [1, 3, 2] := (lags_leads_max [1, 3, 2]).2.1 (by decide)
+example : linkerExtent [1, 3, 2] = 3 := by decide
+
+/-- A linker whose submodel bookkeeping is observable (function-valued state, so the get/set laws hold for every id):
+    values, iteration counters, statuses. -/
+private def upd {β : Type} (f : Nat → β) (i : Nat) (v : β) : Nat → β := fun j => if j = i then v else f j
+private def exLF : LInterp ((Nat → Nat) × (Nat → Int) × (Nat → Status)) (List Nat) Nat where
+  known i := i < 2
+  check u sel _ := sel.map u.1
+  close a b := a == b
+  copyOffset u _ _ _ := u
+  resetIter u i _ := (u.1, upd u.2.1 i 0, u.2.2)
+  bumpIter u i _ := (u.1, upd u.2.1 i (u.2.1 i + 1), u.2.2)
+  stampSub u i _ s := (u.1, u.2.1, upd u.2.2 i s)
+  solveBefore _ u _ _ := (u, false)
+  evalBefore _ u _ _ _ := (u, false)
+  evalSub _ u i _ _ := ((upd u.1 i (min (u.1 i + 1) (2 + i)), u.2), false)
+  evalAfter _ u _ _ _ := (u, false)
+  solveAfter _ u _ _ _ := (u, false)
+
+private theorem exLF_lawful : Lawful exLF 1 (fun u i => u.2.2 i) (fun u i => u.2.1 i) where
+  stamp_same := by intro u i s; simp [exLF, upd]
+  stamp_other := by intro u i j s h; simp [exLF, upd, h]
+  bump_same := by intro u i; simp [exLF, upd]
+  bump_other := by intro u i j h; simp [exLF, upd, h]
+  eval_iter := by intro o u i k j; simp [exLF]
+
+/-- `stampSubs_selected` / `stampSubs_unselected` / `evalSubs_counts` with selection `[0, 1]` (submodel 5 unselected). -/
+example (u : (Nat → Nat) × (Nat → Int) × (Nat → Status)) :
+    (stampSubs exLF 1 .solved [0, 1] u).2.2 1 = .solved ∧ (stampSubs exLF 1 .solved [0, 1] u).2.2 5 = u.2.2 5 :=
+  ⟨stampSubs_selected exLF 1 _ _ exLF_lawful .solved [0, 1] u 1 (by decide),
+   stampSubs_unselected exLF 1 _ _ exLF_lawful .solved [0, 1] u 5 (by decide)⟩
+example (u : (Nat → Nat) × (Nat → Int) × (Nat → Status)) :
+    (evalSubs exLF {} 1 1 [0, 1] u).1.2.1 1 = u.2.1 1 + 1 ∧ (evalSubs exLF {} 1 1 [0, 1] u).1.2.1 5 = u.2.1 5 :=
+  ⟨(evalSubs_counts exLF {} 1 _ _ exLF_lawful 1 [0, 1] u (by decide) rfl).1 1 (by decide),
+   (evalSubs_counts exLF {} 1 _ _ exLF_lawful 1 [0, 1] u (by decide) rfl).2 5 (by decide)⟩
+
+/-- `single_model_linker_eq_model`: a linker around the one model `C02.exI` (state = the model's value plus the
+    submodel's iteration counter; projection = forget the counter), converging at pass 4. -/
+private def exL1 : LInterp (Nat × Int) Nat Nat where
+  known i := i == 0
+  check u _ _ := u.1
+  close a b := a == b
+  copyOffset u _ _ _ := u
+  resetIter u _ _ := (u.1, 0)
+  bumpIter u _ _ := (u.1, u.2 + 1)
+  stampSub u _ _ _ := u
+  solveBefore _ u _ _ := (u, false)
+  evalBefore _ u _ _ _ := (u, false)
+  evalSub _ u _ _ _ := ((min (u.1 + 1) 3, u.2), false)
+  evalAfter _ u _ _ _ := (u, false)
+  solveAfter _ u _ _ _ := (u, false)
+
+private theorem exL1_sim : Sim (asInterp exL1 [0]) (blind C02.exI) Prod.fst where
+  lags := rfl
+  leads := rfl
+  check := fun _ _ => rfl
+  allFinite := rfl
+  close := rfl
+  zeroNF := rfl
+  copyOffset := fun _ _ _ => rfl
+  before := fun _ _ _ => rfl
+  eval := fun _ _ _ _ => rfl
+  after := fun _ _ _ _ => rfl
+
+example : ((lSolveT exL1 { maxIter := 10 } 5 2 [0] ⟨(0, -1), List.replicate 5 .unsolved, List.replicate 5 (-1)⟩).1.map Prod.fst,
+      (lSolveT exL1 { maxIter := 10 } 5 2 [0] ⟨(0, -1), List.replicate 5 .unsolved, List.replicate 5 (-1)⟩).2) =
+    ((solveT C02.exI { maxIter := 10 } 5 2
+        ((⟨(0, -1), List.replicate 5 .unsolved, List.replicate 5 (-1)⟩ : World (Nat × Int)).map Prod.fst)).1,
+      LResult.ret true) ∧
+    (solveT C02.exI { maxIter := 10 } 5 2
+        ((⟨(0, -1), List.replicate 5 .unsolved, List.replicate 5 (-1)⟩ : World (Nat × Int)).map Prod.fst)).2 = .ret true :=
+  single_model_linker_eq_model exL1 { maxIter := 10 } 5 2 C02.exI Prod.fst [0] _ exL1_sim (by decide) (by decide)
+    (fun _ _ => rfl) rfl (by decide) (by unfold Feasible; decide) (by decide) 4 (by decide) (by decide) (by decide)
+    (by decide) (swapLt 4 (by unfold Good; decide)) (by unfold Good; decide) (by decide)
+example : lSolveT exL1 { maxIter := 10 } 5 2 [0] ⟨(0, -1), List.replicate 5 .unsolved, List.replicate 5 (-1)⟩ =
+    (⟨(3, 4), [.unsolved, .unsolved, .solved, .unsolved, .unsolved], [-1, -1, 4, -1, -1]⟩, .ret true) := by decide
+
+end Review
+
 end Fsic.C08
